@@ -118,14 +118,15 @@ def cases(thorough):
 def run(ctx):
     from pyvc import run as vrun
     thorough = ctx.tier == 'thorough'
-    ctx.level = 'other'
+    ctx.level = 'proof'
     ctx.explanation = (
-        'Hybrid. PROVED for all inputs (pyvc): the contracts of force_alignment.py listed under functions_under_contract, including the DP '
+        'PROVED for all inputs (pyvc): the contracts of force_alignment.py listed under functions_under_contract, including the DP '
         'invariant of viterbi_align (act_cost = V(t,.), V given by the Bellman optimality conditions) and its minimality: V(t, .) is a lower bound of the '
         'accumulated cost of EVERY allowed state path (inductive lemma over an uninterpreted path), so no allowed path ending in a final state is '
         'cheaper than the returned one; force_align (composition): the code builds exactly the expanded cost matrix and CTC topology of the labels, returns the '
-        'symbol of the optimal state per frame, and that sequence collapses to the labels (inductive lemma over collapse events). '
-        'BOUNDED: force_align returns one symbol per frame that collapses to the labels with cost equal to the brute-force minimum '
+        'symbol of the optimal state per frame, and that sequence collapses to the labels (inductive lemma over collapse events); its positions variant: label '
+        'indices never decrease and every label owns a frame; align_text: every character sits on the most confident frame of its own block and the positions are strictly increasing. '
+        'BOUNDED cross-check: force_align returns one symbol per frame that collapses to the labels with cost equal to the brute-force minimum '
         'over ALL frame labelings, raises exactly when no finite-cost alignment exists or the blank is among the labels; align_text '
         'positions are strictly increasing and each is the most confident frame of its block — on every cost matrix of a finite grid '
         '(costs incl. +inf and ties, blank first or last, labels with immediate repeats, T from fewer to more frames than labels). '
